@@ -1,5 +1,5 @@
 CONSTANTS
-  U <- U4q
+  U <- U4c
   Vals = {1, 2}
   Keys = {}
   SimLen = 60
